@@ -144,6 +144,11 @@ impl CongestionController for Cubic {
         self.mss
     }
 
+    #[cfg(librqbit_utp_verif)]
+    fn verif_raw(&self) -> Option<(f64, f64, f64)> {
+        Some((self.cwnd, self.ssthresh, self.rwnd))
+    }
+
     // TODO: keep calculations in bytes not to rescale for simplicity?
     fn set_mss(&mut self, mss: usize) {
         if self.mss != mss {
